@@ -184,6 +184,9 @@ def binop(ex, st, op, a, b, node=None):
                         return [(st, VInt(u % (m + 1)))]
             raise Unsupported('general bit-and')
         if isinstance(op, ast.BitOr) and both_int:
+            x, y = to_int(a), to_int(b)
+            if z3.is_int_value(x) and z3.is_int_value(y):
+                return [(st, VInt(x.as_long() | y.as_long()))]
             raise Unsupported('general bit-or')
     # ---- sequences
     if isinstance(a, VSeq) and isinstance(b, VSeq) and isinstance(op, ast.Add):
@@ -651,15 +654,34 @@ def symdict_len(d):
     return d.sym['len']
 
 
+class Key(tuple):
+    """a dict/set key as a tuple of z3 terms (scalars are 1-tuples; fixed-arity tuples of scalars are supported)"""
+
+
 def keyterm(k):
-    """z3 term of a dict key (ints and strings are supported as symbolic keys)"""
+    if isinstance(k, Key):
+        return k
     if isinstance(k, VStr):
-        return k.t
+        return Key((k.t,))
     if isinstance(k, (VInt, VBool)):
-        return to_int(k)
+        return Key((to_int(k),))
     if isinstance(k, VOpt):
         return keyterm(k.val)
+    if isinstance(k, VSeq) and k.concrete and k.kind == 'tuple':
+        out = ()
+        for x in k.items:
+            out = out + tuple(keyterm(x))
+        return Key(out)
+    if z3.is_expr(k):
+        return Key((k,))
     raise Unsupported('symbolic dict key %r' % (k,))
+
+
+def keq(a, b):
+    a, b = keyterm(a), keyterm(b)
+    if len(a) != len(b) or any(x.sort() != y.sort() for x, y in zip(a, b)):
+        return z3.BoolVal(False)
+    return z3.And([x == y for x, y in zip(a, b)]) if len(a) > 1 else a[0] == b[0]
 
 
 def new_symdict(ex, st, name, vty, ksort=None, idx=(), fcache=None):
@@ -671,22 +693,29 @@ def new_symdict(ex, st, name, vty, ksort=None, idx=(), fcache=None):
     key = (name, 'dict')
     if key not in fcache:
         presf = z3.Function(uid(name + '.has'), *([x.sort() for x in idx] + [ksort, z3.BoolSort()]))
+        # note: typed (declared) symbolic dicts have scalar keys; tuple keys arise only from dict/set literals
         lenf = z3.Function(uid(name + '.len'), *([x.sort() for x in idx] + [z3.IntSort()])) if idx else z3.Int(uid(name + '.len'))
         fcache[key] = (presf, lenf, {})
     presf, lenf, cache = fcache[key]
-    pres = lambda k: presf(*(tuple(idx) + (k,)))      # noqa
+    def pres(k):
+        kt = keyterm(k)
+        if len(kt) != 1 or kt[0].sort() != ksort:
+            return z3.BoolVal(False)      # a key of another type is never a member of a map declared with key sort `ksort`
+        return presf(*(tuple(idx) + tuple(kt)))
     n = lenf(*idx) if idx else lenf
     if not idx:
         st.assume(n >= 0)
 
     def val(k):
-        return ex._fresh_fn(st, vty, name + '.val', tuple(idx) + (k,), cache)
+        kt = keyterm(k)
+        if len(kt) != 1 or kt[0].sort() != ksort:
+            return ex._fresh_fn(st, vty, name + '.junkval', tuple(idx), {})
+        return ex._fresh_fn(st, vty, name + '.val', tuple(idx) + tuple(kt), cache)
     return VDict(sym={'has': lambda k: pres(k), 'val': val, 'len': n})
 
 
 def concrete_to_symdict(ex, st, d, k):
     """a dict literal that receives a symbolic key becomes a symbolic map with the same content"""
-    kt = keyterm(k)
     has = lambda j: z3.BoolVal(False)      # noqa
     val = None
     n = 0
@@ -747,8 +776,8 @@ def dict_set(ex, st, d, k, v):
         return VDict(items)
     kk = keyterm(k)
     has, val, n = d.sym['has'], d.sym['val'], d.sym['len']
-    return VDict(sym={'has': lambda j: z3.Or(j == kk, has(j)),
-                      'val': lambda j: ite(j == kk, v, val(j)),
+    return VDict(sym={'has': lambda j: z3.Or(keq(j, kk), has(j)),
+                      'val': lambda j: ite(keq(j, kk), v, val(j)),
                       'len': z3.If(has(kk), n, n + 1)})
 
 
@@ -767,7 +796,7 @@ def dict_del(ex, st, d, k):
     res = []
     for s2, b in ex.branch(st, has(kk)):
         if b:
-            res.append((s2, VDict(sym={'has': lambda j: z3.And(j != kk, has(j)), 'val': val, 'len': n - 1})))
+            res.append((s2, VDict(sym={'has': lambda j: z3.And(z3.Not(keq(j, kk)), has(j)), 'val': val, 'len': n - 1})))
         else:
             res.append((s2, Raised('KeyError', note='symbolic dict')))
     return res
@@ -844,8 +873,25 @@ def b_tuple(ex, st, args, kwargs, node):
 @builtin('set')
 def b_set(ex, st, args, kwargs, node):
     if not args:
-        return [(st, VSeq([], kind='set'))]
+        # a set is a dict without values: membership + cardinality (len grows only when a new key is added)
+        d = VDict(sym={'has': lambda j: z3.BoolVal(False), 'val': (lambda j: NONE), 'len': z3.IntVal(0)})
+        d.is_set = True
+        return [(st, d)]
+    if isinstance(args[0], VSeq) and args[0].concrete:
+        outs = b_set(ex, st, [], {}, node)
+        d = outs[0][1]
+        for x in args[0].items:
+            d = dict_set(ex, st, d, x, NONE)
+            d.is_set = True
+        return [(st, d)]
     raise Unsupported('set(iterable)')
+
+
+@method('dict', 'add')
+def set_m_add(ex, st, selfv, args, kwargs, node):
+    new = dict_set(ex, st, selfv, args[0], NONE)
+    new.is_set = True
+    return [(s, NONE) for s in writeback(ex, st, node, new)]
 
 
 @builtin('dict')
@@ -886,6 +932,8 @@ def b_int(ex, st, args, kwargs, node):
         return res
     if isinstance(v, VNone):
         return [(st, Raised('TypeError', note='int(None)'))]
+    if isinstance(v, VOpaque):
+        return [(st, VInt(z3.Int(uid('int_of_opaque')))), (st.fork(), Raised('ValueError', note='int() of an unknown value'))]
     raise Unsupported('int(%r)' % (v,))
 
 
@@ -1220,6 +1268,18 @@ def m_sqrt(ex, st, args, kwargs, node):
     return res
 
 
+def _sp_fmt0d(ex, st, args, kwargs, node):
+    from . import strings
+    return [(st, strings.int_to_str_pad(ex, st, to_int(args[1]), args[0].conc()))]
+
+
+def _sp_fmt0x(ex, st, args, kwargs, node):
+    from . import strings
+    return [(st, strings.int_to_str_pad(ex, st, to_int(args[1]), args[0].conc(), hexa=True))]
+
+
+BUILTINS['fmt0d'] = _sp_fmt0d      # spec dialect: '%0Kd' % n
+BUILTINS['fmt0x'] = _sp_fmt0x      # spec dialect: '%0Kx' % n
 BUILTINS['floor'] = m_floor      # spec dialect
 BUILTINS['ceil'] = m_ceil
 md5hex = z3.Function('md5hex', z3.StringSort(), z3.StringSort())
@@ -1242,6 +1302,13 @@ def h_md5(ex, st, args, kwargs, node):
 STUB_CLASSES['$hash'] = {
     'hexdigest': lambda ex, st, v, args, kwargs, node: [(st, VStr(md5hex(z3.Concat(st.heap[v.ref]['algo'].t, z3.StringVal(':'), st.heap[v.ref]['data'].t))))],
 }
+EXTERNS['os.O_RDONLY'] = VInt(0)
+EXTERNS['os.O_WRONLY'] = VInt(1)
+EXTERNS['os.O_RDWR'] = VInt(2)
+EXTERNS['os.O_CREAT'] = VInt(64)
+EXTERNS['os.O_EXCL'] = VInt(128)
+EXTERNS['os.O_TRUNC'] = VInt(512)
+EXTERNS['sys.platform'] = VStr('linux')
 EXTERNS['errno.ENOENT'] = VInt(2)
 EXTERNS['errno.EEXIST'] = VInt(17)
 EXTERNS['errno.EACCES'] = VInt(13)
@@ -1267,6 +1334,14 @@ def call_method(ex, st, selfv, name, args, kwargs, node):
             raise Unsupported('method %s.%s' % (selfv.cls, name))
         return h(ex, st, selfv, args, kwargs, node)
     h = METHODS.get((selfv.shape, name))
+    if h is None and isinstance(selfv, VStr) and name in ('rstrip', 'lstrip', 'strip', 'replace', 'title', 'capitalize'):
+        # string -> string methods without a precise model: an uninterpreted function of the receiver and the
+        # (string) arguments (deterministic, nothing else is known about the result)
+        sargs = [a for a in args if isinstance(a, VStr)]
+        if len(sargs) == len(args):
+            f = z3.Function('str_%s_%d' % (name, len(args)), *([z3.StringSort()] * (len(args) + 2)))
+            ex.used_stubs.add('str.%s(): uninterpreted string function' % name)
+            return [(st, VStr(f(selfv.t, *[a.t for a in sargs])))]
     if h is None:
         if isinstance(selfv, VOpaque):
             return ex.opaque_call(st, ex.describe_callee(node), selfv, args, kwargs, node)
@@ -1386,7 +1461,7 @@ def dict_m_pop(ex, st, selfv, args, kwargs, node):
     for s2, b in ex.branch(st, has(kk)):
         if b:
             v = val(kk)
-            new = VDict(sym={'has': lambda j: z3.And(j != kk, has(j)), 'val': val, 'len': n - 1})
+            new = VDict(sym={'has': lambda j: z3.And(z3.Not(keq(j, kk)), has(j)), 'val': val, 'len': n - 1})
             res.extend((s3, v) for s3 in writeback(ex, s2, node, new))
         elif len(args) > 1:
             res.append((s2, args[1]))
@@ -1757,3 +1832,8 @@ def os_path_dirname(ex, st, args, kwargs, node):
     if isinstance(args[0], VOpaque):
         return [(st, VOpaque(name='dirname'))]
     return [(st, VStr(f(args[0].t)))]
+
+
+from . import filemodel as _filemodel  # noqa
+import sys as _sys  # noqa
+_filemodel.install(_sys.modules[__name__])
